@@ -10,6 +10,61 @@
 #[path = "../astdump.rs"]
 mod astdump;
 
+
+/// Removes every `Grouping` node (redundant parentheses) from a typed program.  Model/Lang.v has no
+/// Grouping (astdump drops it), so the pass models are compared with the real passes on the
+/// Grouping-free AST; what the real passes do differently UNDER a Grouping (they only do less:
+/// a parenthesised literal is no "simple constant", an operand in parentheses is not folded) is
+/// outside these ties.
+#[cfg(vbxq_aelys_lang_verif)]
+mod strip {
+    use aelys_sema::{TypedExpr, TypedExprKind, TypedFmtStringPart, TypedStmt, TypedStmtKind};
+    pub fn expr(e: &mut TypedExpr) {
+        loop {
+            let inner = match &mut e.kind {
+                TypedExprKind::Grouping(inner) => Some(std::mem::replace(&mut **inner, TypedExpr::new(TypedExprKind::Null, e.ty.clone(), e.span))),
+                _ => None,
+            };
+            match inner { Some(i) => *e = i, None => break }
+        }
+        match &mut e.kind {
+            TypedExprKind::Binary { left, right, .. } | TypedExprKind::And { left, right } | TypedExprKind::Or { left, right } => { expr(left); expr(right); }
+            TypedExprKind::Unary { operand, .. } => expr(operand),
+            TypedExprKind::Call { callee, args } => { expr(callee); for a in args { expr(a); } }
+            TypedExprKind::Assign { value, .. } => expr(value),
+            TypedExprKind::Grouping(inner) => expr(inner),
+            TypedExprKind::If { condition, then_branch, else_branch } => { expr(condition); expr(then_branch); expr(else_branch); }
+            TypedExprKind::Lambda(inner) => expr(inner),
+            TypedExprKind::LambdaInner { body, .. } => { for s in body { stmt(s); } }
+            TypedExprKind::Member { object, .. } => expr(object),
+            TypedExprKind::ArrayLiteral { elements, .. } | TypedExprKind::VecLiteral { elements, .. } => { for x in elements { expr(x); } }
+            TypedExprKind::ArraySized { size, .. } => expr(size),
+            TypedExprKind::Index { object, index } => { expr(object); expr(index); }
+            TypedExprKind::IndexAssign { object, index, value } => { expr(object); expr(index); expr(value); }
+            TypedExprKind::Range { start, end, .. } => { if let Some(x) = start { expr(x); } if let Some(x) = end { expr(x); } }
+            TypedExprKind::Slice { object, range } => { expr(object); expr(range); }
+            TypedExprKind::FmtString(parts) => { for p in parts { if let TypedFmtStringPart::Expr(x) = p { expr(x); } } }
+            TypedExprKind::StructLiteral { fields, .. } => { for (_, v) in fields { expr(v); } }
+            TypedExprKind::Cast { expr: x, .. } => expr(x),
+            _ => {}
+        }
+    }
+    pub fn stmt(s: &mut TypedStmt) {
+        match &mut s.kind {
+            TypedStmtKind::Expression(e) => expr(e),
+            TypedStmtKind::Let { initializer, .. } => expr(initializer),
+            TypedStmtKind::Block(b) => { for x in b { stmt(x); } }
+            TypedStmtKind::If { condition, then_branch, else_branch } => { expr(condition); stmt(then_branch); if let Some(e) = else_branch { stmt(e); } }
+            TypedStmtKind::While { condition, body } => { expr(condition); stmt(body); }
+            TypedStmtKind::For { start, end, step, body, .. } => { expr(start); expr(end); if let Some(x) = &mut **step { expr(x); } stmt(body); }
+            TypedStmtKind::ForEach { iterable, body, .. } => { expr(iterable); stmt(body); }
+            TypedStmtKind::Return(Some(e)) => expr(e),
+            TypedStmtKind::Function(f) => { for x in &mut f.body { stmt(x); } }
+            _ => {}
+        }
+    }
+}
+
 #[cfg(vbxq_aelys_lang_verif)]
 fn main() {
     use aelys_frontend::lexer::Lexer;
@@ -53,11 +108,15 @@ fn main() {
                 let o = guarded(std::panic::AssertUnwindSafe(move || {
                     use aelys_opt::OptimizationPass;
                     let mut t = t;
+                    // "<pass>@nogroup": the pass runs on the AST with every Grouping node removed
+                    let nm = if let Some(base) = nm.strip_suffix("@nogroup") { for st in t.stmts.iter_mut() { strip::stmt(st); } base.to_string() } else { nm };
                     match nm.as_str() {
                         "dce" => { aelys_opt::DeadCodeEliminator::new().run(&mut t); }
                         "fold" => { aelys_opt::ConstantFolder::new().run(&mut t); }
                         "globalprop" => { aelys_opt::GlobalConstantPropagator::new().run(&mut t); }
                         "globalprop-open" => { let mut g = aelys_opt::GlobalConstantPropagator::new(); g.set_top_level_open(true); g.run(&mut t); }
+                        "localprop" => { aelys_opt::passes::LocalConstantPropagator::new().run(&mut t); }
+                        "localprop-open" => { let mut g = aelys_opt::passes::LocalConstantPropagator::new(); g.set_top_level_open(true); g.run(&mut t); }
                         "unused" => { aelys_opt::passes::UnusedVarEliminator::new().run(&mut t); }
                         "unused-open" => { let mut u = aelys_opt::passes::UnusedVarEliminator::new(); u.set_top_level_open(true); u.run(&mut t); }
                         _ => {}
